@@ -203,7 +203,7 @@ def run_case(case):
                                          policy=rd["policy"],
                                          policy_param=rd["policy_param"],
                                          max_steps=200000)
-                            with eread.sim_bindings(), sc:
+                            with eread.sim_bindings(ds), sc:
                                 seqs.append([
                                     dsgen.canon(e, st["attrs"])[0]
                                     for e in eread.make_iter(ds, "conc", split,
